@@ -111,13 +111,57 @@ def cex_values(pm, types, lens_cand):
     return lens, vals
 
 
+def handmade_contract():
+    """fixed test functions for interaction patterns the random grammar hits rarely"""
+    a, dl, dw = e2egen.arg, e2egen.dyn_len, e2egen.dyn_word
+    fns, metas = [("setUp()", [("PUSH", 3), ("PUSH", 0), "SSTORE"])], []
+
+    def add(sig, body, atoms, kinds, failure):
+        fns.append((sig, body))
+        types = oracle.sig_types(sig)
+        metas.append({"sig": sig, "types": types, "atoms": atoms, "kinds": kinds, "failure": failure, "form": "hand"})
+
+    # one arm pins x (x == 5) and stops; the sibling arm re-reads x and y from calldata
+    add("check_reload(uint256,uint256)",
+        a(1) + ["ISZERO", ("PUSHL", "z"), "JUMPI"] + a(0) + [("PUSH", 7), "EQ"] + a(1) + [("PUSH", 1), "EQ", "AND", ("PUSHL", "bad"), "JUMPI", "STOP",
+                                                                                       ("LABEL", "z")] + a(0) + [("PUSH", 5), "EQ", ("PUSHL", "five"), "JUMPI", "STOP", ("LABEL", "five"), "STOP",
+                                                                                                                 ("LABEL", "bad")] + e2e.panic(1),
+        ["y==0 ? (x==5 ? stop : stop) : (x==7 && y==1 => fail)"], ["plain"], "Panic(1)")
+    # same with the pinning arm explored through an inner equality on the SAME word that the failing arm needs different
+    add("check_reload2(uint256)",
+        a(0) + [("PUSH", 5), "EQ", ("PUSHL", "five"), "JUMPI"] + a(0) + [("PUSH", 9), "EQ", ("PUSHL", "bad"), "JUMPI", "STOP", ("LABEL", "five"), "STOP",
+                                                                         ("LABEL", "bad")] + e2e.panic(1),
+        ["x==5 ? stop : (x==9 => fail)"], ["plain"], "Panic(1)")
+    # two dynamic parameters: fails only for |a| == 1 and |b| == 2
+    add("check_lens(uint256[],uint256[])",
+        [("PUSH", 1)] + dl(0) + ["EQ", ("PUSH", 2)] + dl(1) + ["EQ", "AND", ("PUSHL", "bad"), "JUMPI", "STOP", ("LABEL", "bad")] + e2e.panic(1),
+        ["len(a0)==1 && len(a1)==2"], ["dyn"], "Panic(1)")
+    add("check_lens2(bytes,uint256[])",
+        [("PUSH", 33)] + dl(0) + ["EQ", ("PUSH", 2)] + dl(1) + ["EQ", "AND", ("PUSH", 7)] + dw(1, 1) + ["EQ", "AND", ("PUSHL", "bad"), "JUMPI", "STOP",
+                                                                                                     ("LABEL", "bad")] + e2e.panic(1),
+        ["len(a0)==33 && len(a1)==2 && a1[1]==7"], ["dyn"], "Panic(1)")
+    # symbolic EXP: never fails concretely (no x,y < 4 with x**y == 6), the solver model depends on f_evm_exp
+    add("check_exp(uint256,uint256)",
+        [("PUSH", 6)] + a(1) + a(0) + ["EXP", "EQ", ("PUSH", 4)] + a(0) + ["LT", "AND", ("PUSH", 4)] + a(1) + ["LT", "AND", ("PUSHL", "bad"), "JUMPI", "STOP",
+                                                                                                               ("LABEL", "bad")] + e2e.panic(1),
+        ["a0**a1 == 6 && a0<4 && a1<4"], ["exp"], "Panic(1)")
+    add("check_exp2(uint256,uint256)",
+        [("PUSH", 8)] + a(1) + a(0) + ["EXP", "EQ", ("PUSH", 4)] + a(0) + ["LT", "AND", ("PUSH", 4)] + a(1) + ["LT", "AND", ("PUSHL", "bad"), "JUMPI", "STOP",
+                                                                                                               ("LABEL", "bad")] + e2e.panic(1),
+        ["a0**a1 == 8 && a0<4 && a1<4"], ["exp"], "Panic(1)")
+    return e2e.Spec("H0", fns=fns), metas
+
+
 def run_contract_case(case):
     """worker: one generated contract under one configuration -> recorded events (for both C03 and C04)"""
     seed, k, cfg_i, tier, want = case
     cfg = CONFIGS[cfg_i]
     rec = common.Recorder(tier=tier, seed=seed)
-    g = e2egen.TG(f"c03-{seed}-{k}")
-    spec, metas = g.contract(f"G{k}", nfn=8)
+    if k == "hand":
+        spec, metas = handmade_contract()
+    else:
+        g = e2egen.TG(f"c03-{seed}-{k}")
+        spec, metas = g.contract(f"G{k}", nfn=8)
     if cfg.get("no_arith"):
         keep = [("setUp()", spec.fns[0][1])] + [f for f, m in zip(spec.fns[1:], metas) if not ({"arith", "exp"} & set(m["kinds"]))]
         metas = [m for m in metas if not ({"arith", "exp"} & set(m["kinds"]))]
@@ -131,7 +175,7 @@ def run_contract_case(case):
         over = dict(cfg["over"], dump_smt_queries=True, dump_smt_directory=dump, solver_timeout_assertion=60000)
         over.update(default_bytes_lengths=list(e2egen.BYTES_LENS), default_array_lengths=list(e2egen.ARRAY_LENS))
         if cfg.get("decoy"):
-            dspec, _ = e2egen.TG(f"decoy-{seed}-{k}").contract(f"G{k}", nfn=8)
+            dspec, _ = e2egen.TG(f"decoy-{seed}-{k}").contract(spec.name, nfn=8)
             e2e.run(dspec, **over)
         o = e2e.run(spec, **over)
         if o.exception is not None or len(o.results) != len(metas):
@@ -236,7 +280,7 @@ def fmt(d):
 
 
 def run_suite(run, want, ncontracts, nproc=6):
-    cases = []
+    cases = [(run.seed, "hand", 0, run.tier, tuple(want)), (run.seed, "hand", 1, run.tier, tuple(want))]
     for k in range(ncontracts):
         for ci in range(len(CONFIGS)):
             if ci >= 2 and (k + ci) % 3 != 0 and run.tier == "quick":
